@@ -43,8 +43,12 @@ RULE = ("next: lists of 1-3 specifications generated from the documented grammar
         "against the successor chain; a third of the functions have only startup / shutdown entries (or no argument list), another "
         "fifth has the two words anywhere between the specifications - the runs at definition / removal are judged like instants; dst: 4-6 single-specification functions "
         "(daily and hourly cron, once(h:m[:s]), period with dated / time-only start, intervals 90 min - 1 d) started the day before "
-        "the fall-back / spring-forward night and run for 50-62 h of real time under both subsystems.  Non-trivial: every case has at least "
-        "one specification; distinct by payload.")
+        "the fall-back / spring-forward night and run for 50-62 h of real time under both subsystems; boundary (stream next + a Home Assistant "
+        "corpus): 24:00-like times, 29 Feb / 31 Dec / 1 Jan, sunrise / sunset offsets in every unit name, period() with interval == / > window, "
+        "end == start, zero / negative interval, crontab ranges / steps / lists / names / both day fields / impossible days / out-of-range "
+        "values, duplicate entries and several spellings of one instant, each evaluated at, 1 us before and after its 1st..5th occurrence and "
+        "at start-up; upper-case / capitalised / blank-padded spellings everywhere.  Non-trivial: every case has at least one specification; "
+        "distinct by payload.")
 ASSUMPTIONS = [
     "croniter.get_next, astral sunrise/sunset and the zone offset (dt_util.as_local) are parameters of the model (cronNext, sun, "
     "utcOff); the oracle uses an independent crontab matcher (minute scan), astral directly and zoneinfo",
@@ -52,6 +56,9 @@ ASSUMPTIONS = [
     "quotient of the earlier code survives only as TFlags.preFix for the regression theorem",
     "string tokenisation (regular expressions) is covered by correspondence only; locale weekday names are the C/English ones",
     "asyncio timers fire no earlier than requested; Home Assistant start/stop events as delivered by the test instance",
+    "lag stream: whether a wake-up lands exactly 1 us before its instant is decided by the float rounding of asyncio's sleep arithmetic; "
+    "immediate repetitions of one run are collapsed for the model tie and judged by the oracle on the raw runs instead",
+    "an out-of-range crontab expression (croniter.is_valid false) is logged and skipped by the code: it is dropped from the model's list",
 ]
 TRUSTED = ["tools/extractors/C06.py (unit table of parse_time_offset)", "harness/run_C06.py, harness/run_C07.py (spec AST renderer, "
            "datetime oracle)", "harness/ha_env.py, harness/vclock.py", "modelled not verified: croniter, astral, zoneinfo"]
@@ -84,7 +91,25 @@ def sx_dt6(d):
 
 def per_float(per):
     """the float `parse_time_offset` returns for the interval (value * scale in double arithmetic)"""
-    return float(per[1]) * W.UNITS[per[2]]
+    return (-1 if per[0] < 0 else 1) * float(per[1]) * W.UNITS[per[2]]
+
+
+def cron_valid(expr):
+    """field values inside their ranges (what croniter.is_valid refuses otherwise; the code logs an error and skips the entry)"""
+    fields = expr.lower().split()
+    if len(fields) != 5:
+        return False
+    for f, (lo, hi) in zip(fields, ((0, 59), (0, 23), (1, 31), (1, 12), (0, 7))):
+        f = re.sub(r"[a-z]{3}", lambda m: str(W.CRON_NAMES.get(m.group(0), 99)), f)
+        for n in re.findall(r"\d+", re.sub(r"/\d+", "", f)):       # (step widths are not field values)
+            if not lo <= int(n) <= hi:
+                return False
+    return True
+
+
+def model_specs(specs):
+    """the specifications the model sees: an invalid crontab expression is dropped (`if not croniter.is_valid(...): continue`)"""
+    return [s for s in specs if not (s["kind"] == "cron" and not cron_valid(s["expr"]))]
 
 
 def sx_tspec(s, cron_ids):
@@ -102,7 +127,7 @@ def render_tspec(s, style=0):
     if s["kind"] == "cron":
         return f"cron({s['expr']})"
     sep = ", " if style & 512 else ","
-    per = f"{s['per'][1]}{' ' if style & 4 and s['per'][2] else ''}{s['per'][2]}"
+    per = f"{'-' if s['per'][0] < 0 else ''}{s['per'][1]}{' ' if style & 4 and s['per'][2] else ''}{s['per'][2]}"
     out = f"period({render_dt(s['s'], style)}{sep}{per}"
     if s["e"] is not None:
         out += f"{sep}{render_dt(s['e'], style >> 1)}"
@@ -123,6 +148,19 @@ def _exists_local(t):
 
 def cron_next(expr, t, limit_days=3300):
     """first minute strictly after t matching the crontab expression (naive local time)"""
+    if not cron_valid(expr):
+        return None
+    key = (expr, t.replace(second=0, microsecond=0))
+    if key in _CRON_CACHE:
+        return _CRON_CACHE[key]
+    r = _CRON_CACHE[key] = _cron_next(expr, t, limit_days)
+    return r
+
+
+_CRON_CACHE = {}
+
+
+def _cron_next(expr, t, limit_days):
     cur = t.replace(second=0, microsecond=0) + dt.timedelta(minutes=1)
     mi, hr, dom, mon, dow = expr.split()
     day = cur.replace(hour=0, minute=0)
@@ -155,6 +193,8 @@ class Tables:
         for _ in range(n):
             nx = cron_next(expr, t)
             if nx is None:
+                # no such day ever (30 Feb): croniter's get_next raises - for the model an iterator that does not advance
+                self.cron[(cid, us_of(t))] = us_of(t)
                 return
             self.cron[(cid, us_of(t))] = us_of(nx)
             self.off[us_of(t)] = us_of(t) - utc_us(t)
@@ -177,7 +217,7 @@ def strict_class(s):
         return d[0] == "now" or d[1] == "none" or (not isinstance(d[1], str) and d[1][0] in ("full", "md", "dow"))
     per = off_us(s["per"])
     if per <= 0:
-        return False
+        return True          # "Invalid non-positive period": the entry denotes nothing
     if s["e"] is None:
         if dated(s["s"]):
             return True
@@ -263,6 +303,8 @@ def oracle_next1(s, now, startup, tabs, cid=None):
             return "n/a"
         return least_after(instants_once(d, now, startup, sun), now, startup)
     per = off_us(s["per"])
+    if per <= 0:
+        return None
     if s["e"] is None:
         if s["s"][0] == "now" or s["s"][1] != "none":
             start = oracle_dt(s["s"], now, startup, 0, sun)[0]
@@ -409,7 +451,7 @@ def gen_next(rng, n_lists):
         if rng.random() < 0.1:
             startup = base.replace(hour=rng.choice([0, 10, 12]), minute=0, second=0, microsecond=0)
         specs = [gen_tspec(rng, base) for _ in range(rng.choice([1, 1, 1, 2, 2, 3]))]
-        style = rng.randrange(1024)
+        style = rng.randrange(8192)
         strs = [render_tspec(s, style) for s in specs]
         tabs = Tables()
         nows = {base, startup, base.replace(hour=0, minute=0, second=0, microsecond=0)}
@@ -448,13 +490,132 @@ def gen_next(rng, n_lists):
     return cases
 
 
+def _chain_nows(specs, base, startup, depth):
+    """evaluation times along the successor chain: the k-th denoted instant after `base` (k = 1..depth), 1 us before and after
+    it; with the oracle where it applies (strict class), else with the single specifications' own answers"""
+    nows, tabs = {base: "base", startup: "startup"}, Tables()
+    now = base
+    for k in range(depth):
+        try:
+            t, singles = oracle_next(specs, now, startup, tabs)
+        except (ValueError, OverflowError):
+            break
+        if t == "n/a":
+            ts = [r for r in singles if isinstance(r, dt.datetime)]
+            t = min(ts) if ts else None
+        if t is None or not dt.datetime(1971, 1, 1) < t < dt.datetime(2100, 1, 1):
+            break
+        for n, rel in ((t, "at"), (t - US, "1us before"), (t + US, "1us after")):
+            nows.setdefault(n, f"{rel} occurrence {k + 1}")
+        now = t if t > now else t + US
+    return sorted((n, rel) for n, rel in nows.items() if n >= startup)
+
+
+def _bcases(rng, specs, base, startup, cat, depth=2, style=None):
+    style = rng.randrange(8192) if style is None else style
+    strs = [render_tspec(x, style) for x in specs]
+    as_str = len(strs) == 1 and rng.random() < 0.5
+    return [Case({"kind": "next", "specs": specs, "strs": strs, "now": us_of(now), "startup": us_of(startup), "as_str": as_str, "rel": rel}, None,
+                 tags=("next", "boundary", cat) + tuple(sorted({x["kind"] for x in specs}))) for now, rel in _chain_nows(specs, base, startup, depth)]
+
+
+BOUNDARY_CRONS = ["0 12 13 * 5", "0 0 1-7 * 1", "30 6 * jan,jun mon-fri", "0 0 * JAN MON", "*/7 8-10,14 1-7 * *", "10-20/5 */12 * * *", "0 0 * * 0,6",
+                  "0 0 * * 7", "59 23 31 12 *", "0 0 29 2 *", "0 0 31 * *", "15,45 9-17 * * 1-5", "0 0 1 1 *"]
+DEAD_CRONS = ["0 0 30 2 *", "0 0 31 4,6 *"]
+INVALID_CRONS = ["61 * * * *", "* 24 * * *", "0 0 0 * *", "0 0 * 13 *"]
+
+
+def gen_boundary(rng, k):
+    """boundary values of the documented grammar (each list evaluated along its successor chain: at the instant, 1 us either side,
+    at start-up, up to the 4th occurrence)"""
+    D = dt.datetime
+    out = []
+    bases = [D(2024, 6, 3, 12), D(2024, 2, 28, 23, 59, 59), D(2024, 2, 29, 12), D(2023, 12, 31, 23, 0), D(2024, 12, 31, 23, 59, 59, 999999),
+             D(2025, 1, 1), D(2025, 2, 28, 12), D(2024, 6, 2, 23, 59, 59, 999999), D(2024, 3, 1)]
+
+    def once(date, tm, off=None):
+        return {"kind": "once", "d": ["at", date, tm, off]}
+
+    def per(s_, p_, e_=None):
+        return {"kind": "period", "s": s_, "per": p_, "e": e_}
+
+    def hm(h, m, us=0, date="none", off=None):
+        return ["at", date, ["hms", h, m, us], off]
+    for _ in range(k):
+        # ---- edge values of h:m[:s]: 24:00, 23:60, 23:59:60 (the next midnight), the last microsecond, 0:00 - with every date form
+        for tm in (["hms", 24, 0, 0], ["hms", 23, 60, 0], ["hms", 23, 59, 60000000], ["hms", 23, 59, 59999999], ["hms", 0, 0, 0]):
+            base = rng.choice(bases)
+            date = rng.choice(["none", ["dow", rng.randrange(7)], ["md", 12, 31], ["md", 2, 28], _full(base.date()), _full(base.date() + DAY)])
+            out += _bcases(rng, [once(date, tm, rng.choice([None, None, [1, "0", "s"], [-1, "1", "s"]]))], base, base - rng.choice([0, 1, 3600]) * dt.timedelta(seconds=1),
+                           "edge-time", depth=3)
+        # ---- dates: 29 Feb (dated, month/day in leap and common years), 31 Dec -> 1 Jan through the time / an offset
+        for date, tm, off in ((["full", 2024, 2, 29], ["hms", 8, 0, 0], None), (["md", 2, 29], ["hms", 8, 0, 0], None), (["md", 2, 29], "noon", [1, "1", "d"]),
+                              (["md", 12, 31], ["hms", 23, 59, 59999999], [1, "1", "s"]), (["md", 12, 31], ["hms", 24, 0, 0], None),
+                              (["md", 1, 1], "midnight", [-1, "0.000001", "s"]), (["md", 1, 1], ["hms", 0, 0, 0], None), (["full", 2024, 12, 31], "midnight", [1, "1", "day"]),
+                              (["md", 2, 28], ["hms", 24, 0, 0], None), (["md", 3, 1], "midnight", [-1, "1", "d"])):
+            base = rng.choice(bases)
+            out += _bcases(rng, [once(date, tm, off)], base, base - dt.timedelta(seconds=rng.choice([0, 60, 86400 * 40])), "date", depth=2)
+        # ---- sunrise / sunset with an offset in every unit name, whole and fractional, both signs, zero
+        units = list(W.UNITS)
+        rng.shuffle(units)
+        for u in units[:11]:
+            sc = W.UNITS[u]
+            num = rng.choice({1: ["1", "90", "0.5", "0"], 60: ["1", "2.5", "0", "90"], 3600: ["1", "1.5", "0.25", "0"], 86400: ["1", "0.5", "0"],
+                              604800: ["1", "0.5", "2"]}[sc])
+            base = rng.choice(bases)
+            out += _bcases(rng, [once(rng.choice(["none", "none", ["dow", rng.randrange(7)], _full(base.date() + DAY)]), rng.choice(["sunrise", "sunset"]),
+                                      [rng.choice([1, -1]), num, u])], base, base - DAY, "sun-offset", depth=2)
+        # ---- period(): interval equal to / longer than the window, end == start, zero and negative interval, also next to another entry
+        h = rng.choice([0, 9, 13, 22])
+        for shape, spec in (("interval == window", per(hm(h, 0), [1, "1", "h"], hm(h + 1, 0))),
+                            ("interval > window", per(hm(h, 0), [1, "2", "hours"], hm(h + 1, 0))),
+                            ("end == start", per(hm(h, 0), [1, "1", "h"], hm(h, 0))),
+                            ("end == start", per(hm(h, 30, 0, _full(D(2024, 6, 4).date())), [1, "15", "min"], hm(h, 30, 0, _full(D(2024, 6, 4).date())))),
+                            ("interval == window", per(hm(h, 0, 0, _full(D(2024, 6, 4).date())), [1, "90", "min"], hm(h + 1, 30, 0, _full(D(2024, 6, 4).date())))),
+                            ("interval > window", per(["now", [1, "10", "m"]], [1, "1", "h"], ["now", [1, "30", "min"]])),
+                            ("interval == a day", per(hm(h, 0), [1, "1", "d"], hm(h, 0, 0, "none", [1, "1", "d"]))),
+                            ("zero interval", per(hm(h, 0), [1, "0", "s"])), ("zero interval", per(hm(h, 0), [1, "0.0", "min"], hm(h + 1, 0))),
+                            ("negative interval", per(hm(h, 0), [-1, "5", "s"])), ("negative interval", per(["now", None], [-1, "1", "h"], ["now", [1, "1", "d"]]))):
+            base = rng.choice([D(2024, 6, 3, 12), D(2024, 6, 4, h, 0), D(2024, 6, 3, 23, 59, 59, 999999)])
+            specs = [spec]
+            if rng.random() < 0.4:
+                specs.insert(rng.randrange(2), once("none", ["hms", (h + 2) % 24, 0, 0]))
+            out += _bcases(rng, specs, base, D(2024, 6, 3, 12), "period: " + shape, depth=4)
+        # ---- crontab: ranges / steps / lists / names / both day fields / rare and impossible days / out-of-range values
+        for expr in BOUNDARY_CRONS:
+            out += _bcases(rng, [{"kind": "cron", "expr": expr}], rng.choice(bases), D(2023, 12, 1), "cron-form", depth=3)
+        for expr in DEAD_CRONS + INVALID_CRONS:
+            specs = [{"kind": "cron", "expr": expr}]
+            if rng.random() < 0.6:
+                specs.insert(rng.randrange(2), once("none", "noon"))
+            out += _bcases(rng, specs, rng.choice(bases), D(2023, 12, 1), "cron-impossible-day" if expr in DEAD_CRONS else "cron-out-of-range", depth=1)
+        # ---- several entries: duplicates, different spellings of one instant, instants 1 us apart
+        noon_forms = [once("none", "noon"), once("none", ["hms", 12, 0, 0]), once("none", ["hms", 11, 0, 0], [1, "60", "min"]), once("none", "midnight", [1, "0.5", "d"]),
+                      per(hm(12, 0), [1, "1", "d"]), {"kind": "cron", "expr": "0 12 * * *"}, once("none", ["hms", 24, 0, 0], [-1, "12", "h"])]
+        for _ in range(4):
+            n = rng.choice([2, 2, 3, 4])
+            specs = [dict(rng.choice(noon_forms)) for _ in range(n)]
+            if rng.random() < 0.3:
+                specs.append(once("none", ["hms", 12, 0, rng.choice([1, 999999])]))       # the next instant is 1 us later
+            base = rng.choice([D(2024, 6, 3, 11, 59, 59, 999999), D(2024, 6, 3, 12), D(2024, 11, 2, 12), D(2024, 3, 9, 13)])
+            out += _bcases(rng, specs, base, rng.choice([base, D(2024, 1, 1)]), "same-instant list", depth=3)
+        for _ in range(3):
+            sp = gen_tspec(rng, D(2024, 6, 3, 12))
+            out += _bcases(rng, [sp, dict(sp)] + ([dict(sp)] if rng.random() < 0.3 else []), D(2024, 6, 3, 12), D(2024, 6, 3, 9), "duplicate entry", depth=2)
+        # ---- the third and later occurrence of one specification
+        for _ in range(4):
+            sp = gen_tspec(rng, D(2024, 6, 3, 12))
+            out += _bcases(rng, [sp], rng.choice(bases), D(2023, 6, 1), "later occurrences", depth=5)
+    return out
+
+
 def gen_parse(rng, n):
     cases = []
     for _ in range(n):
         base = W.rand_base(rng)
         startup = base - dt.timedelta(seconds=rng.choice([0, 7, 86400]))
         d = W.gen_dt(rng, base)
-        cases.append(Case({"kind": "parse", "d": d, "str": render_dt(d, rng.randrange(1024)), "day_offset": rng.choice([0, 0, 1, -1, 2]),
+        cases.append(Case({"kind": "parse", "d": d, "str": render_dt(d, rng.randrange(8192)), "day_offset": rng.choice([0, 0, 1, -1, 2]),
                            "now": us_of(base), "startup": us_of(startup)}, None, tags=("parse",)))
     for off in ([1, "1", u] for u in W.UNITS):
         cases.append(Case({"kind": "offset", "off": off, "str": W.render_off(off, rng.randrange(8)).strip()}, None, tags=("offset",)))
@@ -490,6 +651,11 @@ def corpus_cases():
     one(daily, D(2024, 3, 1, 10, 0, 5), D(2024, 3, 1, 10, 0, 0))
     one(daily, D(2024, 3, 1, 10, 0, 0), D(2024, 3, 1, 10, 0, 0))
     one(daily, D(2024, 3, 2, 9, 0, 0), D(2024, 3, 1, 10, 0, 0))
+    # C06-F3 through an offset that crosses midnight: once(midnight - 12 hour) started at noon - on the following day the first
+    # parse (today's midnight - 12 h = yesterday noon) IS the start-up time, the re-parse is suppressed, that day's noon is dropped
+    back = {"kind": "once", "d": ["at", "none", "midnight", [-1, "12", "hour"]]}
+    for now in (D(2024, 10, 7, 12, 0), D(2024, 10, 7, 18, 0), D(2024, 10, 8, 6, 0), D(2024, 10, 8, 11, 59, 59, 999999), D(2024, 10, 8, 12, 0), D(2024, 10, 9, 6, 0)):
+        one(back, now, D(2024, 10, 7, 12, 0))
     return out
 
 
@@ -520,11 +686,20 @@ def gen_ha(rng, n_scen):
                     specs.append({"kind": "cron", "expr": rng.choice(["* * * * *", "1 12 * * *", "*/2 * * * *", "0-1 12 3 6 *"])})
                 else:
                     specs.append({"kind": "once", "d": ["now", None]})
+            if rng.random() < 0.2:
+                # the same entry twice, or the same instant written differently (noon + N s): still ONE run at that instant
+                j = rng.randrange(len(specs))
+                d0 = specs[j].get("d")
+                if d0 and d0[0] == "at" and d0[1] == "none" and rng.random() < 0.5:
+                    secs = Fraction(d0[2][3], 1000000) + 60 * d0[2][2] + 3600 * (d0[2][1] - 12)
+                    specs.append({"kind": "once", "d": ["at", "none", "noon", [1, str(float(secs)) if secs.denominator > 1 else str(int(secs)), "s"]]})
+                else:
+                    specs.insert(rng.randrange(len(specs) + 1), json.loads(json.dumps(specs[j])))
             at_start = any(s["kind"] == "once" and s["d"] == ["now", None] for s in specs)
             # ("startup" is documented as equivalent to once(now); the two subsystems disagree on whether both together give
             #  one run or two, which the property does not settle - the combination is not generated)
             f = {"specs": specs, "startup": rng.random() < 0.35 and not at_start, "shutdown": rng.random() < 0.35,
-                 "style": rng.randrange(1024)}
+                 "style": rng.randrange(8192)}
             r = rng.random()
             if r < 0.3:
                 # only "startup" / "shutdown" entries, or no argument list at all: the runs at definition / removal are part of
@@ -566,6 +741,38 @@ def ha_corpus():
             for legacy in (True, False) for fi in range(len(funcs))]
 
 
+def ha_boundary_corpus():
+    """always run, both subsystems: several entries denoting one instant (ONE run), duplicates, period() with the interval equal to /
+    longer than the window, end == start, zero / negative interval (no run; the other entries still fire), a crontab day that
+    never exists next to a once() (finding C06-F9), upper-case / blank-padded spellings"""
+    def t(sec):
+        x = BASE + dt.timedelta(seconds=sec)
+        return ["at", "none", ["hms", x.hour, x.minute, x.second * 1000000 + x.microsecond], None]
+
+    def once(sec, **kw):
+        return {"kind": "once", "d": t(sec)}
+
+    def per(a, p_, b=None):
+        return {"kind": "period", "s": t(a), "per": p_, "e": None if b is None else t(b)}
+    five = ["at", "none", "noon", [1, "5", "s"]]
+    funcs = [{"specs": [once(5), {"kind": "once", "d": five}, {"kind": "once", "d": ["at", ["full", 2024, 6, 3], ["hms", 12, 0, 5000000], None]}]},
+             {"specs": [once(4.25), once(4.25), once(4.25)]},
+             {"specs": [per(3, [1, "2.5", "s"], 5.5)]},                       # interval == window: 3 and 5.5
+             {"specs": [per(3, [1, "7", "sec"], 5.5)]},                       # interval > window: 3 only
+             {"specs": [per(3.25, [1, "1", "s"], 3.25)]},                     # end == start: that instant only
+             {"specs": [per(3, [1, "0", "s"]), once(6.5)]},                   # zero interval: skipped, the once() fires
+             {"specs": [once(2.75), per(3, [-1, "2", "s"], 9)]},              # negative interval
+             {"specs": [{"kind": "cron", "expr": "0 0 30 2 *"}, once(7.25)]},  # C06-F9: the impossible day takes the once() with it
+             {"specs": [once(8.5), per(8.5, [1, "30", "s"]), {"kind": "once", "d": ["at", ["dow", 1], ["hms", 12, 0, 8500000], None]}], "style": 1024 | 4096},
+             {"specs": [per(2, [1, "1.5", "s"], 11), once(3.5), once(5)], "style": 2048 | 4}]     # 3.5 and 5 are ticks of the period too
+    for f in funcs:
+        f.setdefault("style", 0)
+        f["startup"] = f["shutdown"] = False
+    scen = {"id": "corpus-boundary", "horizon": 12, "funcs": funcs}
+    return [Case({"kind": "ha", "legacy": legacy, "scen": scen, "fi": fi}, None, tags=("ha", "corpus", "boundary", "legacy" if legacy else "new"))
+            for legacy in (True, False) for fi in range(len(funcs))]
+
+
 def _rel(rng, t):
     """start-up relative offsets end in .1 / .6: they never coincide with the absolute instants on the 1/4 s grid (the
     start-up time of a running trigger is BASE plus a few microseconds of dt_now() ticks)"""
@@ -589,7 +796,7 @@ def _near(rng, t, period=False):
 
 def gen_cases(rng, tier, search):
     k = {"quick": 1, "thorough": 8}[tier] * (3 if search else 1)
-    return corpus_cases() + dst_corpus() + ha_corpus() + gen_next(rng, 360 * k) + gen_parse(rng, 240 * k) + gen_ha(rng, 6 * k) + gen_dst(rng, 5 * k) + lag_corpus() + gen_lag(rng, 4 * k)
+    return corpus_cases() + dst_corpus() + ha_corpus() + ha_boundary_corpus() + gen_boundary(rng, k) + gen_next(rng, 360 * k) + gen_parse(rng, 240 * k) + gen_ha(rng, 6 * k) + gen_dst(rng, 5 * k) + lag_corpus() + gen_lag(rng, 4 * k)
 
 
 # ------------------------------------------------------------------------------------------------ running the real code
@@ -602,6 +809,8 @@ async def _next(TrigTime, arg, now, startup):
         r = await TrigTime.timer_trigger_next(arg, now, startup)
         return f"next={_show_dt(r[0])} adj={_show_dt(r[1])}", r[0]
     except Exception as e:  # an exception of pyscript is an outcome
+        if type(e).__name__ == "CroniterBadDateError":
+            return "raise", None          # the iterator has no next value (model: cronLoop runs out of fuel)
         return W._exc_name(e), None
 
 
@@ -845,6 +1054,22 @@ def _dst_script(scen):
     return "\n".join(lines) + "\n"
 
 
+def _spin_guard(loop, limit=400):
+    """The wall clocks of the dst / lag streams are functions of the virtual loop time, which stands still while tasks are ready.
+    A trigger loop that keeps announcing the CURRENT instant (seeded change C06_2: the next tick of a period is `now` itself)
+    would then spin forever at one virtual instant.  After `limit` readings without any progress of the loop time the clock
+    creeps on by 1 us per reading, so the run terminates and the repeated runs reach the verdict."""
+    st = {"t": None, "n": 0}
+
+    def extra_us():
+        t = loop.time()
+        if t != st["t"]:
+            st["t"], st["n"] = t, 0
+        st["n"] += 1
+        return max(0, st["n"] - limit)
+    return extra_us
+
+
 def _run_dst(arg):
     scen, legacy = arg
     from ha_env import run_ha
@@ -857,13 +1082,15 @@ def _run_dst(arg):
         utc0 = start_local.replace(tzinfo=LA).astimezone(UTC)
         t_ref = loop.time()
 
+        spin = _spin_guard(loop)
+
         def real_us():
             return int(round((loop.time() - t_ref) * 1000)) * 1000
 
         def wall():
-            return (utc0 + dt.timedelta(microseconds=real_us())).astimezone(LA).replace(tzinfo=None)
+            return (utc0 + dt.timedelta(microseconds=real_us() + spin())).astimezone(LA).replace(tzinfo=None)
         recs = []
-        Function.register({"rec2": lambda fi, tt: recs.append([fi, tt, us_of(wall()), real_us()])})
+        Function.register({"rec2": lambda fi, tt: len(recs) < 100000 and recs.append([fi, tt, us_of(wall()), real_us()])})
         old = trigger.dt_now
         trigger.dt_now = wall
         try:
@@ -987,7 +1214,7 @@ LAG_START = dt.datetime(2024, 6, 3, 12, 0, 0, 250000)
 def gen_lag(rng, n_scen):
     cases = []
     for sc_i in range(n_scen):
-        ppm = rng.choice([1, 3, 20, 40, 40, 75, 90, 160, -40, 0])
+        ppm = rng.choice([1, 3, 20, 40, 40, 75, 88, 160, -40, 0])     # (n + 3/4 s) x ppm never ends in half a microsecond: no wake-up decided by float rounding
         funcs = []
         for _ in range(rng.choice([3, 4])):
             r = rng.random()
@@ -1036,10 +1263,12 @@ def _run_lag(arg):
         loop = env.loop
         t_ref = loop.time()
 
+        spin = _spin_guard(loop)
+
         def wall():
-            return LAG_START + dt.timedelta(seconds=(loop.time() - t_ref) * rate)
+            return LAG_START + dt.timedelta(seconds=(loop.time() - t_ref) * rate) + dt.timedelta(microseconds=spin())
         recs = []
-        Function.register({"rec2": lambda fi, tt: recs.append([fi, tt, us_of(wall())])})
+        Function.register({"rec2": lambda fi, tt: len(recs) < 100000 and recs.append([fi, tt, us_of(wall())])})
         old = trigger.dt_now
         trigger.dt_now = wall
         try:
@@ -1068,7 +1297,18 @@ def run_lag_cases(cases):
                 continue
             mine = [(us_of(dt.datetime.fromisoformat(tt)), w) for fi, tt, w in res if fi == c.payload["fi"]]
             c.payload["_raw"] = mine
-            c.impl = " ".join(f"{t}@{(w + 500) // 1000 * 1000}" for t, w in mine)
+            c.impl = _collapse(" ".join(f"{t}@{(w + 500) // 1000 * 1000}" for t, w in mine))
+
+
+def _collapse(text):
+    """immediate repetitions of one `instant@wall(ms)` entry count once for the model tie: whether a wake-up lands exactly 1 us
+    before its instant (and the new subsystem then dispatches it twice, finding C06-F8) is decided by the float rounding of
+    asyncio's sleep arithmetic, which the integer model does not reproduce.  Repetitions are judged by lag_verdict on the raw runs."""
+    out = []
+    for tok in text.split():
+        if not out or out[-1] != tok:
+            out.append(tok)
+    return " ".join(out)
 
 
 def lag_line(c):
@@ -1173,12 +1413,17 @@ def make_line(c):
     cron_ids = {}
     if p["kind"] == "next":
         now, st = dt_of(p["now"]), dt_of(p["startup"])
-        specs = [sx_tspec(s, cron_ids) for s in p["specs"]]
-        tabs = tables_for(p["specs"], now, st, cron_ids)
+        specs = [sx_tspec(s, cron_ids) for s in model_specs(p["specs"])]
+        tabs = tables_for(model_specs(p["specs"]), now, st, cron_ids)
         try:
             t, singles = oracle_next(p["specs"], now, st, tabs)
             p["_oracle"] = t if t == "n/a" else _show_dt(t)
             p["_oracle_single"] = [r if r == "n/a" else _show_dt(r) for r in singles]
+            if t == now == st and not any(d_ is not None and d_[0] == "now" for x in p["specs"] for d_ in (x.get("d"), x.get("s"), x.get("e"))):
+                # a RECURRING entry whose instant coincides with the start-up time: documented only for once(now) / "startup";
+                # the instant itself and the next one are both accepted
+                t2, _ = oracle_next(p["specs"], now, st - US, tabs)
+                p["_oracle_alt"] = t2 if t2 == "n/a" else _show_dt(t2)
         except (ValueError, OverflowError):
             p["_oracle"] = "raise"
             p["_oracle_single"] = []
@@ -1193,6 +1438,8 @@ def make_line(c):
             for _ in range(6):
                 tabs.cron_chain(cron_ids[s["expr"]], s["expr"], t, 1)
                 t = cron_next(s["expr"], t)
+                if t is None:
+                    break
             for e in exp:
                 tabs.cron_chain(cron_ids[s["expr"]], s["expr"], e, 2)
                 tabs.cron_chain(cron_ids[s["expr"]], s["expr"], e + US, 2)
@@ -1211,7 +1458,8 @@ def make_line(c):
 
 # ------------------------------------------------------------------------------------------------ verdict
 def split(outline):
-    return outline, None
+    lag = bool(outline.split()) and outline.split()[0].count("@") == 1          # the lag stream's `instant@wall` entries
+    return (_collapse(outline) if lag else outline), None
 
 
 def verdict(c):
@@ -1241,7 +1489,7 @@ def verdict(c):
         return f"next trigger time {nxt} is not after now {now}"
     if want in ("n/a", "raise"):
         return None
-    if m.group(1) != want:
+    if m.group(1) != want and m.group(1) != p.get("_oracle_alt"):
         return f"next={m.group(1)} but the least denoted instant after now is {want}"
     meta = p.get("_meta", {})
     if meta.get("before") is not None and meta["before"] != c.impl and not _adj_only_diff(meta["before"], c.impl):
@@ -1263,8 +1511,18 @@ def classify(c, reason):
         sig = reason.split(" | ")[0]
         # fixed by 0421163 (new subsystem re-checked the wall clock against time_next_adj): a regression, never a known finding
         return "dst:regressed:new:cron:fall:late" if sig == "dst:new:cron:fall:late" else sig
+    if p["kind"] == "ha" and any(x["kind"] == "cron" and x["expr"] in DEAD_CRONS for x in p["scen"]["funcs"][p["fi"]]["specs"]):
+        # every announced run is missing and nothing else happened: the trigger died on the exception
+        return "cron:impossible-day-raises" if c.impl == "" else "cron:impossible-day:other"
     if p["kind"] != "next":
         return p["kind"] + ":" + re.sub(r"\d+", "N", reason)[:50]
+    if c.impl == "raise" and reason.startswith("raised"):
+        now_ = dt_of(p["now"])
+        if any(x["kind"] == "cron" and cron_valid(x["expr"]) and cron_next(x["expr"], now_) is None for x in p["specs"]):
+            return "cron:impossible-day-raises"
+        feb29 = [x for x in p["specs"] if x["kind"] == "once" and x["d"][0] == "at" and x["d"][1] == ["md", 2, 29]]
+        if feb29 and not _leap(now_.year):
+            return "once:feb-29-raises-in-common-year"
     if not reason.startswith("next=") and "is not after now" not in reason:
         return "next:" + re.sub(r"-?\d+", "N", reason)[:60]
     # which specification deviates?
@@ -1301,6 +1559,15 @@ def classify(c, reason):
                 and abs(off_us(s["d"][3])) >= 12 * 3600 * 1000000 and (requery or got != orc):
             # sunrise / sunset move from day to day, `day_offset = (now - this_t).days + 1` assumes exact 24 h steps
             return "once:sun-multi-day-offset"
+        if requery and s["kind"] == "once" and s["d"][0] == "at":
+            # C06-F3 reached at the re-query: the FIRST parse (today's date, time and offset) equals the start-up time - with an
+            # offset that crosses midnight (once(midnight - 12 hour) started at noon) that happens on the day AFTER the start-up,
+            # the day-offset re-parse is suppressed and that day's instant is dropped
+            try:
+                if any(oracle_dt(s["d"], tq, st)[0] == st and tq != st for tq in times[1:]):
+                    return "once:startup-coincidence"
+            except ValueError:
+                pass
         if requery:
             # the answer moves when asked again: a weekday / month-day date whose offset carries the instant out of its day
             if s["kind"] == "once" and s["d"][0] == "at" and not isinstance(s["d"][1], str) and s["d"][1][0] in ("dow", "md") \
@@ -1334,6 +1601,10 @@ def classify(c, reason):
     return "next:requery" if requery else "next:list-combination"
 
 
+def _leap(y):
+    return y % 4 == 0 and (y % 100 != 0 or y % 400 == 0)
+
+
 def _tod_us(tm):
     if tm == "noon":
         return 12 * 3600 * 1000000
@@ -1349,7 +1620,22 @@ def replay_cases(obj):
 def extra_coverage(cases):
     cov = {"streams": {}, "spec_kinds": {}, "once_date_forms": {}, "time_forms": {}, "period_shapes": {}, "answers": {"none": 0, "some": 0, "raise": 0},
            "strict_class_cases": 0, "boundary_nows": 0, "requeried": 0, "dst_day_cases": 0, "leap_day_cases": 0, "ha_runs_checked": 0,
-           "startup_shutdown_functions": 0, "dst_runs_checked": {}, "dst_functions": {}}
+           "startup_shutdown_functions": 0, "dst_runs_checked": {}, "dst_functions": {},
+           "boundary_categories": {}, "boundary_ha_functions": {}, "spellings": {"upper": 0, "capitalised": 0, "blank_runs": 0},
+           "edge_times_24_00_like": 0, "zero_offsets": 0, "boundary_evaluation_points": {}, "asked_1us_before_the_answer": 0,
+           "asked_at_startup_time": 0, "lists_with_equal_answers": 0}
+
+    def scan_dt(d):
+        if d is None:
+            return
+        if d[0] == "at":
+            if not isinstance(d[2], str) and (d[2][1] >= 24 or d[2][2] >= 60 or d[2][3] >= 60000000):
+                cov["edge_times_24_00_like"] += 1
+            off = d[3]
+        else:
+            off = d[1]
+        if off is not None and float(off[1]) == 0:
+            cov["zero_offsets"] += 1
 
     def bump(d, k):
         d[k] = d.get(k, 0) + 1
@@ -1371,6 +1657,8 @@ def extra_coverage(cases):
         if p["kind"] == "ha":
             cov["ha_runs_checked"] += len((c.impl or "").split())
             f = p["scen"]["funcs"][p["fi"]]
+            if "boundary" in c.tags:
+                bump(cov["boundary_ha_functions"], "legacy" if p["legacy"] else "new")
             cov["startup_shutdown_functions"] += int(f["startup"] or f["shutdown"])
             if not f["specs"]:
                 key = "bare" if argv_of(f) is None else ",".join(argv_of(f))
@@ -1380,6 +1668,24 @@ def extra_coverage(cases):
         if p["kind"] != "next":
             continue
         now = dt_of(p["now"])
+        if len(c.tags) > 2 and c.tags[1] == "boundary":
+            bump(cov["boundary_categories"], c.tags[2])
+            bump(cov["boundary_evaluation_points"], p.get("rel", "-"))
+        for st_ in p["strs"]:
+            body = st_[st_.index("(") + 1:]
+            if not st_.startswith("cron") and body != body.lower():
+                cov["spellings"]["upper" if body == body.upper() else "capitalised"] += 1
+            if "   " in body:
+                cov["spellings"]["blank_runs"] += 1
+        for x in p["specs"]:
+            for d_ in (x.get("d"), x.get("s"), x.get("e")):
+                scan_dt(d_)
+        if p.get("_oracle") not in ("n/a", "raise", None, "none"):
+            cov["asked_1us_before_the_answer"] += int(int(p["_oracle"]) - p["now"] == 1)
+        osn = [o for o in p.get("_oracle_single", []) if o not in ("n/a", "none")]
+        if len(osn) > 1 and len(set(osn)) < len(osn):
+            cov["lists_with_equal_answers"] += 1
+        cov["asked_at_startup_time"] += int(p["now"] == p["startup"])
         if (now.month, now.day) in ((3, 10), (11, 3)) and now.year == 2024:
             cov["dst_day_cases"] += 1
         if (now.month, now.day) == (2, 29):
